@@ -18,6 +18,8 @@ Reading guide: `consumeJ prog fuel kc lim c w` = one terminal operation on the o
 -/
 import ShpanVerif.Proofs.JoinLifeClean
 import ShpanVerif.Proofs.JoinLifeTie
+import ShpanVerif.Proofs.JoinLifeTieLeft
+import ShpanVerif.Proofs.JoinLifeTieN
 
 namespace ShpanVerif.Props.JoinLife
 open ShpanVerif.Model.Pipe ShpanVerif.Model.JoinLife ShpanVerif.Proofs.JoinLife
@@ -128,6 +130,38 @@ theorem C09_join_refines (kf : Int → Int) (F fuel : Nat) (kc : Consumer) (l r 
   rw [C09_join_erase _ _ _ _ _ hw]
   exact collectL_join2 kf F fuel l r hF
 
+/-- **C09_leftjoin_refines (LeftJoinSortedStreams)**: over plain lists `leftJoin2` does, call by call, what
+`Join.emitLeftJoin` does (`leftJoin2_emitLeftJoin`: same rows, same captured variables — `rightStreamIsDone` included —,
+same read positions, same error, from ANY values of the captured variables), so the fault-free terminal delivers exactly
+the rows (and the error, if any) of `Join.collect (Join.emitLeftJoin kf kf)` — for all inputs, sorted or not; hence, by
+`C09_join2_left`, the nested-loop left join when the inputs are sorted.  `F` (the bound of the inner `for`) only has to
+exceed the length of the right input. -/
+theorem C09_leftjoin_refines (kf : Int → Int) (F fuel : Nat) (kc : Consumer) (l r : List Int) (r0 r1 : Nat) (w : World)
+    (hw : w.Clean) (hF : r.length < F) :
+    (consumeJ (leftJoin2 kf F) fuel kc none (Obj.mk0 [(r0, l), (r1, r)] ({} : J2)) w).1 =
+      outcomeLJ2 (Model.Join.collect (Model.Join.emitLeftJoin kf kf) fuel (Model.Join.init2 l r)) := by
+  rw [C09_join_erase _ _ _ _ _ hw]
+  exact collectL_leftJoin2 kf F fuel l r hF
+
+/-- **C09_joinN_refines (JoinMultipleSortedStreams)**: over plain lists `joinN` — index loops over `nextBuffer` /
+`lastKeys` — does, call by call, what `Join.emitInnerN` — structural recursion over per-input records — does
+(`joinN_emitInnerN_first`, `joinN_emitInnerN`: same rows, same buffers, same `lastKeys`, same read positions, same
+error), so the fault-free terminal delivers exactly the rows (and the error, if any) of
+`Join.collect (Join.emitInnerN kf)` — for ANY number of inputs (zero included), all inputs, sorted or not; hence, by
+`C09_joinN_inner`, the relational N-way join when the inputs are strictly increasing.  `F` (the bound of the `for` loop)
+only has to exceed the total number of input elements: every round that does not return pulls an element. -/
+theorem C09_joinN_refines (kf : Int → Int) (F fuel : Nat) (kc : Consumer) (srcs : List (Nat × List Int)) (w : World)
+    (hw : w.Clean) (hF : Model.Join.total (srcs.map (·.2)) < F) :
+    (consumeJ (joinN kf srcs.length F) fuel kc none (Obj.mk0 srcs ({} : NS)) w).1 =
+      outcomeJN (Model.Join.collect (Model.Join.emitInnerN kf) fuel (Model.Join.initN (srcs.map (·.2)))) := by
+  rw [C09_join_erase _ _ _ _ _ hw]
+  have h := collectL_joinN kf F fuel (srcs.map (·.2)) hF
+  simp only [List.length_map] at h
+  have hins : (Obj.mk0 srcs ({} : NS)).ins.map (·.xs) = srcs.map (·.2) := by
+    simp [Obj.mk0, Function.comp_def]
+  rw [hins]
+  exact h
+
 /-! ### C18 — histories -/
 
 /-- one earlier materialisation: fuel, consumer, optional `Limit`, and an arbitrary world with the inputs closed -/
@@ -210,6 +244,26 @@ example : (consumeJ (joinN exKf 3 20) 20 .user none exN {}).1 =
     .ok [[some 0, some 1, some 2], [some 11, some 12, some 13]] := by decide +kernel
 example : (8 : Nat) + 2 ≤ 20 ∧ (Model.Join.collect (Model.Join.emitJoin exKf exKf) 20 (Model.Join.init2 [0, 1, 12, 23] [3, 14, 15, 26])).1.length = 4 := by
   decide +kernel
+
+/-- C09 (left join, N-way): the hypotheses of `C09_leftjoin_refines` / `C09_joinN_refines` are met by the examples, the
+C09 model delivers non-trivial rows on them (sorted inputs: 3 rows with a `nil` slot, 2 rows), and on unsorted inputs both
+sides end in the same sortedness error after the same rows -/
+example : ([3, 14] : List Int).length < 20 ∧
+    Model.Join.collect (Model.Join.emitLeftJoin exKf exKf) 20 (Model.Join.init2 [0, 1, 12, 23] [3, 24]) =
+      ([(0, some 3), (1, some 3), (12, none), (23, some 24)], none) := by decide +kernel
+example : (consumeJ (leftJoin2 exKf 20) 20 .collect none (Obj.mk0 [(0, [0, 1, 12, 23]), (1, [3, 24])] {}) {}).1 =
+    .ok [[some 0, some 3], [some 1, some 3], [some 12, none], [some 23, some 24]] := by decide +kernel
+example : Model.Join.total ([(0, [0, 11, 22]), (1, [1, 12, 23]), (2, [2, 13])].map (·.2)) < 20 ∧
+    Model.Join.collect (Model.Join.emitInnerN exKf) 20 (Model.Join.initN [[0, 11, 22], [1, 12, 23], [2, 13]]) =
+      ([[0, 1, 2], [11, 12, 13]], none) := by decide +kernel
+example : (consumeJ (leftJoin2 exKf 20) 20 .collect none (Obj.mk0 [(0, [0, 21, 12]), (1, [3])] {}) {}).1 =
+      .err (.lib "left-unsorted") [[some 0, some 3], [some 21, none]] ∧
+    outcomeLJ2 (Model.Join.collect (Model.Join.emitLeftJoin exKf exKf) 20 (Model.Join.init2 [0, 21, 12] [3])) =
+      .err (.lib "left-unsorted") [[some 0, some 3], [some 21, none]] := by decide +kernel
+example : (consumeJ (joinN exKf 2 20) 20 .collect none (Obj.mk0 [(0, [0, 11, 22]), (1, [1, 12, 3, 24])] {}) {}).1 =
+      .err (.lib "stream-unsorted") [[some 0, some 1], [some 11, some 12]] ∧
+    outcomeJN (Model.Join.collect (Model.Join.emitInnerN exKf) 20 (Model.Join.initN [[0, 11, 22], [1, 12, 3, 24]])) =
+      .err (.lib "stream-unsorted") [[some 0, some 1], [some 11, some 12]] := by decide +kernel
 
 /-- C01: a panic in the second Open (call position 1): the first input is rolled back, the second never closed -/
 example : (consumeJ (join2 exKf 20) 20 .collect none exInner { fault := some (1, .panicVal) }).2.2.trace =
